@@ -29,7 +29,7 @@ var spec = lib.Spec{
 		"Output sets: 1-3 outputs (files incl. multi-KiB and empty ones, G-tree directories, symlinks) + the build-metadata file. One fault per case: " +
 		"store faults: a top-level output missing (in-process); open of the i-th regular file fails with EACCES, or its k-th read fails with EIO (helper process under `strace -f -P <file> -e inject=...`, every file position); " +
 		"the server drops the connection after b bytes of the PUT / the store command fails after b bytes; retrieve faults: the server cuts the response after b bytes (with and without Content-Length) / the retrieve command exits 1 after b bytes. " +
-		"Oracle: after a faulty store a Retrieve into an empty out dir is a miss or restores the complete set (TreeDiff); a faulty retrieve returns false and a following healthy retrieve is complete; without fault a hit is complete. " +
+		"Oracle: after a faulty store a Retrieve into an empty out dir is a miss or restores the complete set (TreeDiff); a faulty retrieve returns false (or true with the complete set: a cut inside the gzip trailer loses no file data) and a following healthy retrieve is complete; without fault a hit is complete. " +
 		"Non-trivial = a fault that fired, on an output set with >= 2 regular files, not at the first file / byte 0. distinct = case JSON",
 	Assumptions: []string{
 		"the HTTP server is well behaved: it stores a PUT only if the request body ended cleanly",
@@ -392,7 +392,16 @@ func run(c c13Case, o *lib.Obs) error {
 			return &lib.Inconclusive{Msg: err.Error()}
 		}
 		if hit {
-			return lib.Failf("hit-on-failed-retrieve", "%s cache, %s: Retrieve returned true", c.Kind, desc)
+			// Only acceptable if nothing is missing: e.g. the cut fell into the gzip trailer, after the tar
+			// reader had seen the end-of-archive marker, so every file arrived completely.
+			got, err := cx.SnapshotOuts(s)
+			if err != nil {
+				return lib.Failf("unreadable-restore", "%s cache, %s: hit, but %v", c.Kind, desc, err)
+			}
+			if d := diff(want, got); d != "" {
+				return lib.Failf("hit-on-failed-retrieve", "%s cache, %s: Retrieve returned true with an incomplete tree (first = expected):\n%s", c.Kind, desc, d)
+			}
+			o.Label("cut_retrieve_hit_but_complete")
 		}
 		if c.Kind == "http" {
 			srv.mu.Lock()
